@@ -403,10 +403,14 @@ def _recompute_between(cfg, inv, st):
 def _tolerance_kinds(ctx, mdl):
     """derive from segment_length how each tolerance parameter is compared:
     'tolerance' (recursion while measured > p: smaller is more accurate) or 'effort' (recursion while depth < p)"""
-    fi = mdl.func('path.segment_length')
-    params = fi.params()
+    fi0 = mdl.func('path.segment_length')
     kinds = {}
-    for n in ast.walk(fi.node):
+    # the recursion may live in segment_length itself or in a private worker it hands over to
+    cands = [fi0] + [fi0.module.functions[c.func.id] for c in ast.walk(fi0.node)
+                     if isinstance(c, ast.Call) and isinstance(c.func, ast.Name) and c.func.id in fi0.module.functions and c.func.id != fi0.name]
+    for fi in cands:
+      params = fi.params()
+      for n in ast.walk(fi.node):
         if isinstance(n, ast.If):
             rec = any(isinstance(c, ast.Call) and isinstance(c.func, ast.Name) and c.func.id == fi.name for c in ast.walk(n))
             if not rec:
@@ -421,7 +425,12 @@ def _tolerance_kinds(ctx, mdl):
                             kinds[r.id] = 'effort'
                     if isinstance(l, ast.Name) and l.id in params and l.id not in ('depth',) and not isinstance(r, ast.Name):
                         pass
+    fi = fi0
     if kinds.get('error') != 'tolerance' or kinds.get('min_depth') != 'effort':
+        if not kinds:
+            # not derivable from the shape of the recursion: fall back on the documented meaning of the public parameters
+            ctx.assume("'error' is an accuracy tolerance (smaller = more accurate), 'min_depth' a minimum effort (larger = more accurate): documented API meaning")
+            return {'error': 'tolerance', 'min_depth': 'effort'}
         ctx.undecided('R16.3', fi.qualname, 'tolerance kinds', 'cannot derive how error/min_depth steer the recursion: %r' % kinds,
                       where=where(fi))
     return kinds
